@@ -327,6 +327,34 @@ func checkPlotOrder(c *Ctx, rule string, fn *ssa.Function, mapField string) {
 			c.OK(rule, key, c.Pos(w.Pos()), "every path from the window write to a checkpoint update passes Sync on "+wfile)
 		}
 	}
+	// (1b) a checkpoint recorded inside the window loop covers a window that was written: no in-loop
+	// checkpoint event is reachable from the function's entry without passing a window write (recording
+	// first and flushing second leaves, after an interruption between the two, a checkpoint ahead of the data)
+	{
+		key := name + ":window-written-before-its-checkpoint"
+		isW := func(in ssa.Instruction) bool {
+			cl, ok := in.(*ssa.Call)
+			return ok && isCall(cl, idWTW)
+		}
+		r := reach(fn, nil, nil, isW)
+		bad := false
+		nIn := 0
+		for _, ue := range us {
+			if !blockReentered(fn, ue.site) {
+				continue
+			}
+			nIn++
+			if r(ue.site) {
+				bad = true
+				c.Bad(rule, key, c.Pos(ue.site.Pos()), "the in-loop checkpoint update can run before the window it accounts for has been written: a stop, crash or failed flush between the two leaves recorded progress ahead of durable data, and the resumed pass skips that window")
+			}
+		}
+		if nIn == 0 {
+			c.Bad(rule, key, c.Pos(fn.Pos()), "reason=anchor-missing: no checkpoint update inside the window loop")
+		} else if !bad {
+			c.OK(rule, key, c.Pos(fn.Pos()), "every in-loop checkpoint update is preceded, on every path from the entry, by a window write")
+		}
+	}
 	// (2) UpdateCheckpoint -> Sync(same file) before the next window write or any normal return
 	for i, ue := range us {
 		u := ue.site
@@ -519,10 +547,10 @@ func checkC10(c *Ctx) Meta {
 	c.Rule("C10-FRESH", "every window is computed into a freshly allocated (zeroed) cache: Update always reallocates, makeAvailableMemory always updates on success, every window write is preceded by it within its own round", 4)
 	c.Rule("C10-REMOVE", "map A is removed only after both passes returned nil (whose every normal exit has passed the final checkpoint and its Sync)", 2)
 	c.Rule("C10-SCAN", "a resumed or multi-window second pass computes what an uninterrupted one computes: every window considers every pair of map A (read from the start of map A, pair loop from 0, full window loops, consistent offsets)", 5)
-	c.aliasFrom, c.aliasTo = "C07-SCAN", "C10-SCAN"
+	c.pushAlias("C07-SCAN", "C10-SCAN")
 	c.Rule("C07-OWN", "", 0)
 	checkC07ScanOwn(c)
-	c.aliasFrom, c.aliasTo = "", ""
+	c.popAlias()
 	delete(c.Rules, "C07-OWN")
 	delete(c.Floors, "C07-OWN")
 	checkMapALoadedByProgressOnly(c, "C10-READY")
@@ -552,179 +580,7 @@ func checkC10(c *Ctx) Meta {
 	checkFreshWindow(c, "C10-FRESH")
 	checkRemoveAfterPasses(c, "C10-REMOVE")
 
-	// READY
-	if f := c.MustFn("C10-READY", "poc/engine/massdb/massdb.v1", "(*HashMapB).Progress"); f != nil {
-		ok := false
-		for _, r := range returnsOf(f) {
-			sl := backSlice(r.Results[0])
-			cmp := false
-			for v := range sl.vals {
-				if b, isB := v.(*ssa.BinOp); isB && (b.Op == token.GEQ || b.Op == token.LEQ || b.Op == token.EQL || b.Op == token.GTR || b.Op == token.LSS) {
-					cmp = true
-				}
-			}
-			if cmp && sl.hasField(tHashMap, "checkpoint") && sl.hasField(tHashMap, "volume") {
-				ok = true
-			}
-		}
-		if ok {
-			c.OK("C10-READY", "HashMapB.Progress", c.Pos(f.Pos()), "plotted flag is a comparison of HashMap.checkpoint with HashMap.volume")
-		} else {
-			c.Bad("C10-READY", "HashMapB.Progress", c.Pos(f.Pos()), "plotted flag does not derive from a comparison of the checkpoint with the volume")
-		}
-	}
-	if f := c.MustFn("C10-READY", "poc/engine/massdb/massdb.v1", "(*MassDBV1).Progress"); f != nil {
-		bad := ""
-		for _, r := range returnsOf(f) {
-			sl := backSlice(r.Results[1])
-			if sl.hasCallTo("(*" + pkgMassDBV1 + ".HashMapB).Progress") {
-				// must be component 0 of that call
-				viaExtract0 := false
-				for v := range sl.vals {
-					if ex, ok := v.(*ssa.Extract); ok && ex.Index == 0 {
-						if cl, ok := ex.Tuple.(*ssa.Call); ok && isCall(cl, "(*"+pkgMassDBV1+".HashMapB).Progress") {
-							viaExtract0 = true
-						}
-					}
-				}
-				if !viaExtract0 {
-					bad = "plotted is not the first result of HashMapB.Progress"
-				}
-				continue
-			}
-			// constant true only on the branch where HashMapA == nil
-			if k, ok := strip(r.Results[1]).(*ssa.Const); ok && k.Value != nil && k.Value.String() == "true" {
-				// r must be unreachable when the HashMapA==nil edge is cut
-				var tests []nilTest
-				for _, a := range fieldAccesses(f) {
-					if a.Kind == "load" && a.Field == "HashMapA" {
-						tests = append(tests, nilTestsOf(f, a.In.(ssa.Value))...)
-					}
-				}
-				rr := reach(f, nil, func(from, to *ssa.BasicBlock) bool {
-					for _, t := range tests {
-						if from == t.If.Block() && to == t.NilSucc {
-							return true
-						}
-					}
-					return false
-				}, nil)
-				if len(tests) == 0 || rr(r) {
-					bad = "returns plotted=true on a path where HashMapA is not known to be nil"
-				}
-				continue
-			}
-			bad = "plotted result neither comes from HashMapB.Progress nor is the HashMapA==nil constant"
-		}
-		if bad == "" {
-			c.OK("C10-READY", "MassDBV1.Progress", c.Pos(f.Pos()), "plotted is HashMapB.Progress()'s flag, or true only when map A is absent")
-		} else {
-			c.Bad("C10-READY", "MassDBV1.Progress", c.Pos(f.Pos()), bad)
-		}
-	}
-	for _, spec := range []struct{ pkg, label string }{{"poc/engine/spacekeeper/capacity", "capacity"}} {
-		f := c.MustFn("C10-READY", spec.pkg, "NewWorkSpace")
-		if f == nil {
-			continue
-		}
-		key := spec.label + ".NewWorkSpace:ready-under-plotted"
-		progress := callsIn(f, "("+pkgMassDB+".MassDB).Progress")
-		if len(progress) != 1 {
-			c.Bad("C10-READY", key, c.Pos(f.Pos()), "reason=anchor-missing: NewWorkSpace no longer calls MassDB.Progress exactly once")
-			continue
-		}
-		plotted := resultOf(progress[0], 1)
-		var tests []boolTest
-		if plotted != nil {
-			tests = boolTestsOf(f, plotted)
-		}
-		cut := func(from, to *ssa.BasicBlock) bool {
-			for _, t := range tests {
-				if from == t.If.Block() && to == t.TrueSucc {
-					return true
-				}
-			}
-			return false
-		}
-		r := reach(f, nil, cut, nil)
-		found, bad := false, false
-		for _, a := range fieldAccesses(f) {
-			if a.Kind != "store" || a.Field != "state" {
-				continue
-			}
-			st := a.In.(*ssa.Store)
-			k, ok := strip(st.Val).(*ssa.Const)
-			if !ok || k.Value == nil {
-				bad = true
-				c.Bad("C10-READY", key, c.Pos(st.Pos()), "workspace state on open is not a constant")
-				continue
-			}
-			if k.Value.ExactString() == "2" { // engine.Ready
-				found = true
-				if len(tests) == 0 || r(st) {
-					bad = true
-					c.Bad("C10-READY", key, c.Pos(st.Pos()), "state Ready is stored on a path where the plotted flag is not known to be true")
-				}
-			} else if k.Value.ExactString() != "0" {
-				bad = true
-				c.Bad("C10-READY", key, c.Pos(st.Pos()), "a state other than Registered/Ready is assigned on open")
-			}
-		}
-		if !found {
-			c.Bad("C10-READY", key, c.Pos(f.Pos()), "reason=anchor-missing: no store of engine.Ready in NewWorkSpace")
-		} else if !bad {
-			c.OK("C10-READY", key, c.Pos(f.Pos()), "state Ready is stored only on the true edge of MassDB.Progress()'s plotted flag")
-		}
-	}
-	if f := c.MustFn("C10-READY", "poc/engine/massdb/massdb.v1", "OpenDB"); f != nil {
-		key := "OpenDB:mapA-loaded-unless-final"
-		prog := callsIn(f, "(*"+pkgMassDBV1+".HashMapB).Progress")
-		loads := callsIn(f, pkgMassDBV1+".LoadHashMap")
-		if len(prog) != 1 || len(loads) != 2 {
-			c.Bad("C10-READY", key, c.Pos(f.Pos()), "reason=anchor-missing: OpenDB shape changed")
-		} else {
-			plotted := resultOf(prog[0], 0)
-			tests := boolTestsOf(f, plotted)
-			// on the not-plotted edge every success return passes the second LoadHashMap
-			var loadA *ssa.Call
-			for _, l := range loads {
-				if instrDominates(prog[0], l) {
-					loadA = l
-				}
-			}
-			cutTrue := func(from, to *ssa.BasicBlock) bool {
-				for _, t := range tests {
-					if from == t.If.Block() && to == t.TrueSucc {
-						return true
-					}
-				}
-				return false
-			}
-			bad := false
-			if loadA == nil || len(tests) == 0 {
-				bad = true
-			} else {
-				r := reach(f, prog[0], cutTrue, func(in ssa.Instruction) bool { return in == ssa.Instruction(loadA) })
-				for _, ret := range returnsOf(f) {
-					if isNilErrorReturn(ret) && r(ret) {
-						bad = true
-					}
-				}
-				// and map A's path argument is pathA (result 0 of getPath), map B's pathB
-				gp := callsIn(f, pkgMassDBV1+".getPath")
-				if len(gp) == 1 {
-					if !backSlice(loadA.Call.Args[0]).has(resultOf(gp[0], 0)) {
-						bad = true
-					}
-				}
-			}
-			if bad {
-				c.Bad("C10-READY", key, c.Pos(f.Pos()), "OpenDB can succeed without loading map A although map B is not final (or loads the wrong path)")
-			} else {
-				c.OK("C10-READY", key, c.Pos(f.Pos()), "when HashMapB.Progress() is not plotted every successful return has loaded map A from pathA")
-			}
-		}
-	}
+	checkReadyRules(c, "C10-READY")
 
 	return Meta{
 		Explanation: "Structural necessary conditions of crash-safe, never-falsely-complete plotting, decided on every CFG path of prePlotWork/plotWork/executePlot/UpdateCheckpoint/OpenDB/NewWorkSpace: the durability order write→Sync→checkpoint→Sync with file identity by access path; no dropped storage error on that path; map A removed only after both passes returned nil; readiness derived from map B's checkpoint.",
@@ -741,6 +597,11 @@ func checkC07(c *Ctx) Meta {
 	c.Rule("C07-SCAN", "every window of the second pass considers every pair of map A: the read position is the start of map A (no window-dependent term) and the pair loop runs from 0 to half, because a pair lands in a window by its z, not by its position; the window loops run to the full volume; each cache write is placed relative to the lower bound of its own range test", 5)
 	c.Rule("C07-OWN", "a proof handed out is owned by the caller: the byte slices HashMapB.Get / HashMapA.Get return derive from a buffer allocated in that call, never from storage held by the map object (which the next lookup would overwrite after VerifyProof has passed)", 2)
 	checkC07ScanOwn(c)
+	c.Rule("C07-STOP", "an interrupted window is never recorded as written: on the plotting path the branch taken when the stop channel fires returns a provably non-nil error (the C10-STOP rule: otherwise the checkpoint advances past a window that was never flushed and the completed table lacks its entries)", 3)
+	checkStopReturns(c, "C07-STOP")
+	c.Rule("C07-READY", "only a complete table serves proofs: readiness is derived from map B's checkpoint (HashMapB.Progress, MassDBV1.Progress, NewWorkSpace, OpenDB — the C10-READY rules), so a space interrupted in the second pass is re-plotted, not mined", 4)
+	checkReadyRules(c, "C07-READY")
+	checkMapALoadedByProgressOnly(c, "C07-READY")
 	c.Rule("C07-FORWARD", "the keeper forwards proof and error of MassDB.GetProof unchanged and the miner drops entries whose Error is non-nil", 2)
 
 	if f := c.MustFn("C07-VERIFY", "poc/engine/massdb/massdb.v1", "(*MassDBV1).GetProof"); f != nil {
@@ -1717,4 +1578,185 @@ func unreachableWithout(f *ssa.Function, from, avoid *ssa.BasicBlock, target ssa
 	last := from.Instrs[len(from.Instrs)-1]
 	r := reach(f, last, func(a, b *ssa.BasicBlock) bool { return a == from && b != avoid }, nil)
 	return !r(target)
+}
+
+
+// checkReadyRules: readiness is derived from map B's recorded checkpoint all the way up to the keeper's
+// state (HashMapB.Progress, MassDBV1.Progress, NewWorkSpace, OpenDB). Shared by C10 (never falsely
+// complete), C07 (a space that serves proofs holds the whole table) and C09 (registered vs ready on open).
+func checkReadyRules(c *Ctx, rule string) {
+	// READY
+	if f := c.MustFn(rule, "poc/engine/massdb/massdb.v1", "(*HashMapB).Progress"); f != nil {
+		ok := false
+		for _, r := range returnsOf(f) {
+			sl := backSlice(r.Results[0])
+			cmp := false
+			for v := range sl.vals {
+				if b, isB := v.(*ssa.BinOp); isB && (b.Op == token.GEQ || b.Op == token.LEQ || b.Op == token.EQL || b.Op == token.GTR || b.Op == token.LSS) {
+					cmp = true
+				}
+			}
+			if cmp && sl.hasField(tHashMap, "checkpoint") && sl.hasField(tHashMap, "volume") {
+				ok = true
+			}
+		}
+		if ok {
+			c.OK(rule, "HashMapB.Progress", c.Pos(f.Pos()), "plotted flag is a comparison of HashMap.checkpoint with HashMap.volume")
+		} else {
+			c.Bad(rule, "HashMapB.Progress", c.Pos(f.Pos()), "plotted flag does not derive from a comparison of the checkpoint with the volume")
+		}
+	}
+	if f := c.MustFn(rule, "poc/engine/massdb/massdb.v1", "(*MassDBV1).Progress"); f != nil {
+		bad := ""
+		for _, r := range returnsOf(f) {
+			sl := backSlice(r.Results[1])
+			if sl.hasCallTo("(*" + pkgMassDBV1 + ".HashMapB).Progress") {
+				// must be component 0 of that call
+				viaExtract0 := false
+				for v := range sl.vals {
+					if ex, ok := v.(*ssa.Extract); ok && ex.Index == 0 {
+						if cl, ok := ex.Tuple.(*ssa.Call); ok && isCall(cl, "(*"+pkgMassDBV1+".HashMapB).Progress") {
+							viaExtract0 = true
+						}
+					}
+				}
+				if !viaExtract0 {
+					bad = "plotted is not the first result of HashMapB.Progress"
+				}
+				continue
+			}
+			// constant true only on the branch where HashMapA == nil
+			if k, ok := strip(r.Results[1]).(*ssa.Const); ok && k.Value != nil && k.Value.String() == "true" {
+				// r must be unreachable when the HashMapA==nil edge is cut
+				var tests []nilTest
+				for _, a := range fieldAccesses(f) {
+					if a.Kind == "load" && a.Field == "HashMapA" {
+						tests = append(tests, nilTestsOf(f, a.In.(ssa.Value))...)
+					}
+				}
+				rr := reach(f, nil, func(from, to *ssa.BasicBlock) bool {
+					for _, t := range tests {
+						if from == t.If.Block() && to == t.NilSucc {
+							return true
+						}
+					}
+					return false
+				}, nil)
+				if len(tests) == 0 || rr(r) {
+					bad = "returns plotted=true on a path where HashMapA is not known to be nil"
+				}
+				continue
+			}
+			bad = "plotted result neither comes from HashMapB.Progress nor is the HashMapA==nil constant"
+		}
+		if bad == "" {
+			c.OK(rule, "MassDBV1.Progress", c.Pos(f.Pos()), "plotted is HashMapB.Progress()'s flag, or true only when map A is absent")
+		} else {
+			c.Bad(rule, "MassDBV1.Progress", c.Pos(f.Pos()), bad)
+		}
+	}
+	for _, spec := range []struct{ pkg, label string }{{"poc/engine/spacekeeper/capacity", "capacity"}} {
+		f := c.MustFn(rule, spec.pkg, "NewWorkSpace")
+		if f == nil {
+			continue
+		}
+		key := spec.label + ".NewWorkSpace:ready-under-plotted"
+		progress := callsIn(f, "("+pkgMassDB+".MassDB).Progress")
+		if len(progress) != 1 {
+			c.Bad(rule, key, c.Pos(f.Pos()), "reason=anchor-missing: NewWorkSpace no longer calls MassDB.Progress exactly once")
+			continue
+		}
+		plotted := resultOf(progress[0], 1)
+		var tests []boolTest
+		if plotted != nil {
+			tests = boolTestsOf(f, plotted)
+		}
+		cut := func(from, to *ssa.BasicBlock) bool {
+			for _, t := range tests {
+				if from == t.If.Block() && to == t.TrueSucc {
+					return true
+				}
+			}
+			return false
+		}
+		r := reach(f, nil, cut, nil)
+		found, bad := false, false
+		for _, a := range fieldAccesses(f) {
+			if a.Kind != "store" || a.Field != "state" {
+				continue
+			}
+			st := a.In.(*ssa.Store)
+			k, ok := strip(st.Val).(*ssa.Const)
+			if !ok || k.Value == nil {
+				bad = true
+				c.Bad(rule, key, c.Pos(st.Pos()), "workspace state on open is not a constant")
+				continue
+			}
+			if k.Value.ExactString() == "2" { // engine.Ready
+				found = true
+				if len(tests) == 0 || r(st) {
+					bad = true
+					c.Bad(rule, key, c.Pos(st.Pos()), "state Ready is stored on a path where the plotted flag is not known to be true")
+				}
+			} else if k.Value.ExactString() != "0" {
+				bad = true
+				c.Bad(rule, key, c.Pos(st.Pos()), "a state other than Registered/Ready is assigned on open")
+			}
+		}
+		if !found {
+			c.Bad(rule, key, c.Pos(f.Pos()), "reason=anchor-missing: no store of engine.Ready in NewWorkSpace")
+		} else if !bad {
+			c.OK(rule, key, c.Pos(f.Pos()), "state Ready is stored only on the true edge of MassDB.Progress()'s plotted flag")
+		}
+	}
+	if f := c.MustFn(rule, "poc/engine/massdb/massdb.v1", "OpenDB"); f != nil {
+		key := "OpenDB:mapA-loaded-unless-final"
+		prog := callsIn(f, "(*"+pkgMassDBV1+".HashMapB).Progress")
+		loads := callsIn(f, pkgMassDBV1+".LoadHashMap")
+		if len(prog) != 1 || len(loads) != 2 {
+			c.Bad(rule, key, c.Pos(f.Pos()), "reason=anchor-missing: OpenDB shape changed")
+		} else {
+			plotted := resultOf(prog[0], 0)
+			tests := boolTestsOf(f, plotted)
+			// on the not-plotted edge every success return passes the second LoadHashMap
+			var loadA *ssa.Call
+			for _, l := range loads {
+				if instrDominates(prog[0], l) {
+					loadA = l
+				}
+			}
+			cutTrue := func(from, to *ssa.BasicBlock) bool {
+				for _, t := range tests {
+					if from == t.If.Block() && to == t.TrueSucc {
+						return true
+					}
+				}
+				return false
+			}
+			bad := false
+			if loadA == nil || len(tests) == 0 {
+				bad = true
+			} else {
+				r := reach(f, prog[0], cutTrue, func(in ssa.Instruction) bool { return in == ssa.Instruction(loadA) })
+				for _, ret := range returnsOf(f) {
+					if isNilErrorReturn(ret) && r(ret) {
+						bad = true
+					}
+				}
+				// and map A's path argument is pathA (result 0 of getPath), map B's pathB
+				gp := callsIn(f, pkgMassDBV1+".getPath")
+				if len(gp) == 1 {
+					if !backSlice(loadA.Call.Args[0]).has(resultOf(gp[0], 0)) {
+						bad = true
+					}
+				}
+			}
+			if bad {
+				c.Bad(rule, key, c.Pos(f.Pos()), "OpenDB can succeed without loading map A although map B is not final (or loads the wrong path)")
+			} else {
+				c.OK(rule, key, c.Pos(f.Pos()), "when HashMapB.Progress() is not plotted every successful return has loaded map A from pathA")
+			}
+		}
+	}
+
 }
